@@ -127,26 +127,31 @@ Section LoopPrinciple.
 
   Lemma loop_cb X cb l s s' r :
     winv X (cb :: l) e s -> run_cb fuel codes e cb s = (s', r) -> Q X (cb :: l) s ->
-    exists X', winv (X ++ X') l e s' /\ Q (X ++ X') l s'.
+    exists X', etrace codes X' s s' /\ winv (X ++ X') l e s' /\ Q (X ++ X') l s'.
   Proof.
     intros W R HQ. pose proof W as (CI & PW & (eev & He & Ce) & WL).
     assert (ViaX : xsteps codes s s' -> (forall c, cb <> CbCheck c) -> (forall c, cb <> CbBuild c) ->
-              exists X', winv (X ++ X') l e s' /\ Q (X ++ X') l s').
+              exists X', etrace codes X' s s' /\ winv (X ++ X') l e s' /\ Q (X ++ X') l s').
     { intros (X' & T) N1 N2. exists X'.
       destruct (xtrace_winv codes (cb :: l) e X' s s' T X W) as (W' & _).
+      split; [rewrite <- (app_nil_r X'); econstructor; [apply es_x, T|constructor]|].
       split; [eapply winv_tail, W'|]. eapply Qdrop; [exact N1|exact N2|exact W'|].
       eapply Qi; [exact W|eapply xtrace_iptrace, T|exact HQ]. }
     destruct (run_cb_winv codes fuel X cb l e s s' r W R) as (X0 & _ & W0 & _).
     destruct cb; cbn [run_cb] in R.
     - apply ViaX; try discriminate. pose proof (xs_resume_proc codes fuel p e s PW) as Xs. rewrite R in Xs. exact Xs.
-    - injection R as <- <-. exists []. rewrite app_nil_r. split; [|apply Qcheck; assumption].
-      assert (CK : chk_ok s e c) by (apply (proj1 WL); left; reflexivity).
+    - injection R as <- <-. assert (CK : chk_ok s e c) by (apply (proj1 WL); left; reflexivity).
+      exists []. rewrite app_nil_r.
+      split; [rewrite <- (app_nil_r []); econstructor; [eapply es_check; [exact He|exact Ce|apply chk_ok_opnd, CK]|constructor]|].
+      split; [|apply Qcheck; assumption].
       pose proof (grows_cond_check c e s) as G. split; [eapply cinv_cond_check; [exact CI|exact He|exact Ce|apply chk_ok_opnd, CK]|].
       split; [eapply prim_procs_wf; [eapply p_check; [exact He|exact Ce|apply chk_ok_opnd, CK]|exact PW]|].
       split; [eapply grows_processed; [exact G|exists eev; auto]|eapply wl_grows; [exact G|eapply wl_tail, WL]].
     - assert (c = e) by (apply (proj2 WL); left; reflexivity). subst c.
       assert (s' = fst (cond_build e s)) by (rewrite R; reflexivity). subst s'.
-      exists []. rewrite app_nil_r. split; [|apply Qbuild; assumption].
+      exists []. rewrite app_nil_r.
+      split; [rewrite <- (app_nil_r []); econstructor; [apply es_build|constructor]|].
+      split; [|apply Qbuild; assumption].
       pose proof (grows_cond_build e s) as G. split; [apply cinv_cond_build, CI|].
       split; [eapply prim_procs_wf; [apply p_build|exact PW]|].
       split; [eapply grows_processed; [exact G|exists eev; auto]|eapply wl_grows; [exact G|eapply wl_tail, WL]].
@@ -156,13 +161,333 @@ Section LoopPrinciple.
   Qed.
 
   Lemma loop_all l s s' : cbloop codes fuel e l s s' -> forall X,
-    winv X l e s -> Q X l s -> exists X', Q (X ++ X') [] s'.
+    winv X l e s -> Q X l s -> exists X', etrace codes X' s s' /\ Q (X ++ X') [] s'.
   Proof.
     induction 1 as [s|c t s s1 s' R1 L IH|t s s1 r1 s' R1 Ex L IH]; intros X W HQ.
-    - exists []. rewrite app_nil_r. exact HQ.
-    - destruct (loop_cb X c t s s1 ROk W R1 HQ) as (X1 & W1 & Q1).
-      destruct (IH _ W1 Q1) as (X2 & Q2). exists (X1 ++ X2). rewrite app_assoc. exact Q2.
-    - destruct (loop_cb X CbStop t s s1 r1 W R1 HQ) as (X1 & W1 & Q1).
-      destruct (IH _ W1 Q1) as (X2 & Q2). exists (X1 ++ X2). rewrite app_assoc. exact Q2.
+    - exists []. rewrite app_nil_r. split; [constructor|exact HQ].
+    - destruct (loop_cb X c t s s1 ROk W R1 HQ) as (X1 & T1 & W1 & Q1).
+      destruct (IH _ W1 Q1) as (X2 & T2 & Q2). exists (X1 ++ X2). rewrite app_assoc. split; [eapply et_app; eassumption|exact Q2].
+    - destruct (loop_cb X CbStop t s s1 r1 W R1 HQ) as (X1 & T1 & W1 & Q1).
+      destruct (IH _ W1 Q1) as (X2 & T2 & Q2). exists (X1 ++ X2). rewrite app_assoc. split; [eapply et_app; eassumption|exact Q2].
   Qed.
 End LoopPrinciple.
+
+(* ------------------------------------------------------------------------------------------------ *)
+(* what _check and _build_value do to the individual events *)
+
+Lemma cond_check_cbs c0 o s a : option_map cbs (get_event a (cond_check c0 o s)) = option_map cbs (get_event a s).
+Proof.
+  unfold cond_check. destruct (get_event c0 s) as [cev|] eqn:Hc; [|reflexivity].
+  destruct (get_event o s) as [oev|] eqn:Ho; [|reflexivity].
+  destruct (out cev); [reflexivity|]. destruct (kind cev); try reflexivity.
+  assert (U : forall e f s1, (forall ev, cbs (f ev) = cbs ev) -> option_map cbs (get_event a (upd_event e f s1)) = option_map cbs (get_event a s1)).
+  { intros e f s1 Hf. rewrite get_upd. destruct (Nat.eqb a e); [|reflexivity]. destruct (get_event a s1); cbn; [rewrite Hf|]; reflexivity. }
+  destruct (out oev) as [[v|x]|]; [destruct (cond_evaluate _ _ _)| |destruct (cond_evaluate _ _ _)];
+    unfold trigger_event; rewrite ?get_schedule, ?U by reflexivity; reflexivity.
+Qed.
+
+Lemma cond_check_noproc c0 o s : noproc s (cond_check c0 o s).
+Proof.
+  intros a. unfold is_proc. pose proof (cond_check_cbs c0 o s a) as H.
+  destruct (get_event a (cond_check c0 o s)) as [x|], (get_event a s) as [y|]; cbn in H; try discriminate; [|reflexivity].
+  injection H as H. unfold is_processed. rewrite H. reflexivity.
+Qed.
+
+Definition build_rel (e a : evid) (x y : event) : Prop :=
+  kind y = kind x /\ defused y = defused x /\ (cbs x = None <-> cbs y = None) /\
+  (out y = out x \/ (a = e /\ exists v v', out x = Some (Ok v) /\ out y = Some (Ok v'))).
+
+Lemma cond_build_rel e s a :
+  match get_event a s, get_event a (fst (cond_build e s)) with
+  | Some x, Some y => build_rel e a x y
+  | None, None => True
+  | _, _ => False
+  end.
+Proof.
+  unfold cond_build. destruct (remove_checks (S e) e s) as [s1|] eqn:R.
+  2:{ cbn [fst]. destruct (get_event a s); [|exact I]. repeat split; auto. }
+  pose proof (rmsteps_rmrel _ _ _ (remove_checks_rm _ _ _ _ R) a) as RR.
+  assert (Base : match get_event a s, get_event a s1 with Some x, Some y => build_rel e a x y | None, None => True | _, _ => False end).
+  { destruct (get_event a s), (get_event a s1); auto. destruct RR as (K & O & D & C & _). repeat split; auto; tauto. }
+  destruct (get_event e s1) as [cev|] eqn:Hc; [|exact Base].
+  destruct (out cev) as [[v|x]|] eqn:Oc; try exact Base.
+  destruct (kind cev) eqn:Kc; try exact Base.
+  destruct (populate (S e) (events s1) ops); [|exact Base]. cbn [fst].
+  rewrite get_upd. destruct (Nat.eqb a e) eqn:E; [|exact Base].
+  apply Nat.eqb_eq in E. subst a. rewrite Hc in *. cbn. destruct (get_event e s) as [x|]; [|contradiction].
+  destruct Base as (K & D & C & O). split; [exact K|]. split; [exact D|]. split; [exact C|]. right. split; [reflexivity|].
+  destruct O as [O|(_ & v1 & v2 & O1 & O2)].
+  - exists v. eexists. split; [congruence|reflexivity].
+  - exists v1. eexists. split; [exact O1|reflexivity].
+Qed.
+
+Lemma cond_build_noproc e s : noproc s (fst (cond_build e s)).
+Proof.
+  intros a. unfold is_proc. pose proof (cond_build_rel e s a) as H.
+  destruct (get_event a s) as [x|], (get_event a (fst (cond_build e s))) as [y|]; try contradiction; [|reflexivity].
+  destruct H as (_ & _ & C & _). unfold is_processed. destruct (cbs x), (cbs y); auto.
+  - destruct C as [_ C]. specialize (C eq_refl). discriminate.
+  - destruct C as [C _]. specialize (C eq_refl). discriminate.
+Qed.
+
+(* ------------------------------------------------------------------------------------------------ *)
+(* one step seen from one pending condition c: the popped event is e, l are e's callbacks still to run *)
+
+Section OneCondition.
+  Variables (codes : list prog) (fuel : nat) (e c : evid) (all : bool) (ops : list evid) (s0 : state).
+  Hypothesis Nce : c <> e.
+
+  Definition kproc (ev : event) : Prop := exists q, kind ev = KProcess q.
+
+  Definition TR (l : list cb) (s : state) : Prop :=
+    exists cev n eev, get_event c s = Some cev /\ kind cev = KCond all ops n /\ get_event e s = Some eev /\ out eev <> None /\
+      (~ In e ops -> out cev = None /\ cbcount (CbCheck c) l = 0%nat) /\
+      (In e ops ->
+         (out cev = None /\ (all = false -> 0 < cbcount (CbCheck c) l)%nat /\
+            (is_failed eev = true -> (0 < cbcount (CbCheck c) l)%nat \/ kproc eev)) \/
+         (exists x, out cev = Some (Fail x) /\ defused eev = true /\ (out eev = Some (Fail x) \/ kproc eev)) \/
+         (out cev = Some (Ok VNone) /\ cond_evaluate all (length ops) n = true /\ (is_failed eev = false \/ kproc eev))).
+
+  Definition QQ (X : list evid) (l : list cb) (s : state) : Prop :=
+    noproc s0 s /\ (~ In c X -> TR l s).
+
+  Lemma cbcount_check_cons c0 l : cbcount (CbCheck c) (CbCheck c0 :: l) = ((if Nat.eqb c c0 then 1 else 0) + cbcount (CbCheck c) l)%nat.
+  Proof. rewrite cbcount_cons. reflexivity. Qed.
+
+  (* transfer of the facts about e to a later record of e *)
+  Lemma TR_transfer l s s1 cev n eev cev1 eev1 :
+    get_event c s = Some cev -> kind cev = KCond all ops n -> get_event e s = Some eev -> out eev <> None ->
+    get_event c s1 = Some cev1 -> kind cev1 = KCond all ops n -> out cev1 = out cev ->
+    get_event e s1 = Some eev1 -> kind eev1 = kind eev -> (defused eev = true -> defused eev1 = true) ->
+    (ostat (out eev1) = ostat (out eev) /\ (forall x, out eev = Some (Fail x) -> out eev1 = Some (Fail x)) \/ kproc eev) ->
+    out eev1 <> None ->
+    ((~ In e ops -> out cev = None /\ cbcount (CbCheck c) l = 0%nat) /\
+     (In e ops ->
+         (out cev = None /\ (all = false -> 0 < cbcount (CbCheck c) l)%nat /\
+            (is_failed eev = true -> (0 < cbcount (CbCheck c) l)%nat \/ kproc eev)) \/
+         (exists x, out cev = Some (Fail x) /\ defused eev = true /\ (out eev = Some (Fail x) \/ kproc eev)) \/
+         (out cev = Some (Ok VNone) /\ cond_evaluate all (length ops) n = true /\ (is_failed eev = false \/ kproc eev)))) ->
+    TR l s1.
+  Proof.
+    intros Hc Kc He Oe Hc1 Kc1 Oc1 He1 Ke1 De1 Oe1 One1 (A & B).
+    assert (KP : kproc eev -> kproc eev1) by (intros (q & H); exists q; congruence).
+    exists cev1, n, eev1. split; [exact Hc1|]. split; [exact Kc1|]. split; [exact He1|]. split; [exact One1|].
+    rewrite Oc1. split; [exact A|]. intros Io. destruct (B Io) as [(O & L1 & L2)|[(x & O & D & E)|(O & Ev & F)]].
+    - left. split; [exact O|]. split; [exact L1|]. intros F1.
+      destruct Oe1 as [(St & _)|K]; [|right; apply KP, K].
+      destruct (L2 ltac:(unfold is_failed in *; destruct (out eev1) as [[?|?]|], (out eev) as [[?|?]|]; cbn in St; congruence)) as [H|H]; [left; exact H|right; apply KP, H].
+    - right. left. exists x. split; [exact O|]. split; [auto|].
+      destruct E as [E|K]; [|right; apply KP, K]. destruct Oe1 as [(_ & Fx)|K]; [left; apply Fx, E|right; apply KP, K].
+    - right. right. split; [exact O|]. split; [exact Ev|].
+      destruct F as [F|K]; [|right; apply KP, K]. destruct Oe1 as [(St & _)|K]; [|right; apply KP, K].
+      left. unfold is_failed in *. destruct (out eev1) as [[?|?]|], (out eev) as [[?|?]|]; cbn in St; congruence.
+  Qed.
+
+  Lemma iptrace_keeps_e X' s s1 eev :
+    iptrace X' s s1 -> get_event e s = Some eev -> out eev <> None ->
+    exists eev1, get_event e s1 = Some eev1 /\ kind eev1 = kind eev /\ (defused eev = true -> defused eev1 = true) /\
+                 (out eev1 = out eev \/ kproc eev) /\ out eev1 <> None.
+  Proof.
+    intros T. revert eev. induction T as [|x X' s s1 s2 P T IH]; intros eev He Oe.
+    - exists eev. repeat split; auto.
+    - destruct (proj1 (iprim_keeps _ _ _ P) _ _ He) as (ev1 & H1 & K1 & D1 & _ & O1).
+      assert (O1n : out ev1 <> None).
+      { pose proof (iprim_grows _ _ _ P) as [G _]. destruct (G _ _ He) as (ev1' & H1' & _ & _ & Gn & _). rewrite H1 in H1'. injection H1' as <-. auto. }
+      destruct (IH _ H1 O1n) as (ev2 & H2 & K2 & D2 & O2 & N2). exists ev2. split; [exact H2|]. split; [congruence|]. split; [auto|].
+      split; [|exact N2].
+      destruct O1 as [O1|[(O1 & _)|O1]]; [|congruence|right; exact O1].
+      destruct O2 as [O2|(q & O2)]; [left; congruence|right; exists q; congruence].
+  Qed.
+
+  Lemma QQ_i X l X' s s1 : winv X l e s -> iptrace X' s s1 -> QQ X l s -> QQ (X ++ X') l s1.
+  Proof.
+    intros _ T (NP & HT). split.
+    - intros o. rewrite (iptrace_noproc _ _ _ T o). apply NP.
+    - intros N. assert (N1 : ~ In c X) by (intros H; apply N, in_or_app; auto).
+      assert (N2 : ~ In c X') by (intros H; apply N, in_or_app; auto).
+      destruct (HT N1) as (cev & n & eev & Hc & Kc & He & Oe & AB).
+      destruct (iptrace_keeps X' s s1 c cev T N2 Hc) as (cev1 & Hc1 & Kc1 & _ & _ & Oc1).
+      assert (Oc : out cev1 = out cev) by (destruct Oc1 as [H|(q & H)]; [exact H|congruence]).
+      destruct (iptrace_keeps_e X' s s1 eev T He Oe) as (eev1 & He1 & Ke1 & De1 & Oe1 & One1).
+      apply (TR_transfer l s s1 cev n eev cev1 eev1 Hc Kc He Oe Hc1 ltac:(congruence) Oc He1 Ke1 De1); [|exact One1|exact AB].
+      destruct Oe1 as [H|H]; [left; rewrite H; split; [reflexivity|auto]|right; exact H].
+  Qed.
+
+  Lemma QQ_drop X cb l s : (forall c0, cb <> CbCheck c0) -> (forall c0, cb <> CbBuild c0) -> winv X (cb :: l) e s -> QQ X (cb :: l) s -> QQ X l s.
+  Proof.
+    intros N1 _ _ (NP & HT). split; [exact NP|]. intros N. destruct (HT N) as (cev & n & eev & Hc & Kc & He & Oe & AB).
+    assert (E : cbcount (CbCheck c) (cb :: l) = cbcount (CbCheck c) l).
+    { rewrite cbcount_cons. assert (X0 : cb_eqb (CbCheck c) cb = false) by (apply cb_eqb_neq; intros H; apply (N1 c); auto). rewrite X0. reflexivity. }
+    rewrite E in AB. exists cev, n, eev. auto.
+  Qed.
+
+  Lemma QQ_build X l s : winv X (CbBuild e :: l) e s -> QQ X (CbBuild e :: l) s -> QQ X l (fst (cond_build e s)).
+  Proof.
+    intros _ (NP & HT). split.
+    - intros o. rewrite (cond_build_noproc e s o). apply NP.
+    - intros N. destruct (HT N) as (cev & n & eev & Hc & Kc & He & Oe & AB).
+      assert (E : cbcount (CbCheck c) (CbBuild e :: l) = cbcount (CbCheck c) l) by (rewrite cbcount_cons; reflexivity).
+      rewrite E in AB.
+      pose proof (cond_build_rel e s c) as Rc. rewrite Hc in Rc.
+      destruct (get_event c (fst (cond_build e s))) as [cev1|] eqn:Hc1; [|contradiction].
+      destruct Rc as (Kc1 & _ & _ & Oc1). assert (Oc : out cev1 = out cev) by (destruct Oc1 as [H|(H & _)]; [exact H|contradiction]).
+      pose proof (cond_build_rel e s e) as Re. rewrite He in Re.
+      destruct (get_event e (fst (cond_build e s))) as [eev1|] eqn:He1; [|contradiction].
+      destruct Re as (Ke1 & De1 & _ & Oe1).
+      apply (TR_transfer l s (fst (cond_build e s)) cev n eev cev1 eev1 Hc Kc He Oe Hc1 ltac:(congruence) Oc He1 Ke1 ltac:(congruence)); [| |exact AB].
+      + left. destruct Oe1 as [H|(_ & v & v' & H1 & H2)]; [rewrite H; split; [reflexivity|auto]|].
+        rewrite H1, H2. split; [reflexivity|]. intros x Hx. discriminate.
+      + destruct Oe1 as [H|(_ & v & v' & H1 & H2)]; congruence.
+  Qed.
+
+  Lemma QQ_check X c0 l s : winv X (CbCheck c0 :: l) e s -> QQ X (CbCheck c0 :: l) s -> QQ X l (cond_check c0 e s).
+  Proof.
+    intros (CI & _ & (eev0 & He0 & Ce0) & WL) (NP & HT). split.
+    - intros o. rewrite (cond_check_noproc c0 e s o). apply NP.
+    - intros N. destruct (HT N) as (cev & n & eev & Hc & Kc & He & Oe & (A & B)).
+      rewrite cbcount_check_cons in A, B.
+      destruct (Nat.eq_dec c0 c) as [->|N0].
+      + (* the _check of c itself *)
+        rewrite Nat.eqb_refl in A, B.
+        assert (Ie : In e ops).
+        { destruct (proj1 WL c (or_introl eq_refl)) as (cev' & a' & ops' & n' & H' & K' & I'). rewrite Hc in H'. injection H' as <-.
+          rewrite Kc in K'. injection K' as <- <- <-. exact I'. }
+        destruct (out cev) as [oc|] eqn:Oc.
+        * (* already triggered: no effect *)
+          rewrite cond_check_noop by (right; right; exists cev; split; [exact Hc|left; congruence]).
+          exists cev, n, eev. rewrite Oc. split; [exact Hc|]. split; [exact Kc|]. split; [exact He|]. split; [exact Oe|].
+          split; [intros H; contradiction|]. intros _. destruct (B Ie) as [(O & _)|[H|H]]; [discriminate|right; left; exact H|right; right; exact H].
+        * rewrite (cond_check_eq c e s cev eev all ops n Hc He Oc Kc Nce). cbv zeta.
+          set (s1 := if is_failed eev then upd_event e ev_set_defused s else s).
+          set (s2 := upd_event c (check_upd all ops n (out eev)) s1).
+          assert (Hc1 : get_event c s1 = Some cev) by (unfold s1; destruct (is_failed eev); [rewrite get_upd_other by exact Nce|]; exact Hc).
+          assert (Hc2 : get_event c s2 = Some (check_upd all ops n (out eev) cev)) by (apply get_upd_same, Hc1).
+          assert (He2 : get_event e s2 = Some (if is_failed eev then ev_set_defused eev else eev)).
+          { unfold s2. rewrite get_upd_other by congruence. unfold s1. destruct (is_failed eev); [apply get_upd_same, He|exact He]. }
+          assert (Fin : TR l s2).
+          { exists (check_upd all ops n (out eev) cev), (S n), (if is_failed eev then ev_set_defused eev else eev).
+            split; [exact Hc2|]. split.
+            { unfold check_upd. destruct (out eev) as [[?|?]|]; [destruct (cond_evaluate all (length ops) (S n))| |destruct (cond_evaluate all (length ops) (S n))]; reflexivity. }
+            split; [exact He2|]. split; [destruct (is_failed eev); exact Oe|].
+            split; [intros H; contradiction|]. intros _.
+            unfold check_upd, is_failed in *. destruct (out eev) as [[v|x]|] eqn:Oo.
+            - destruct (cond_evaluate all (length ops) (S n)) eqn:Ev; cbn [out ev_set_out ev_set_kind].
+              + right. right. split; [reflexivity|]. split; [reflexivity|left; cbn; rewrite ?Oo; reflexivity].
+              + left. rewrite Oc. split; [reflexivity|]. split.
+                * intros ->. cbn in Ev. discriminate.
+                * rewrite Oo. discriminate.
+            - right. left. exists x. cbn. split; [reflexivity|]. split; [reflexivity|left; exact Oo].
+            - congruence. }
+          destruct (check_triggers all ops n (out eev)); [|exact Fin].
+          destruct Fin as (a1 & a2 & a3 & F1 & F2 & F3 & F4). exists a1, a2, a3. rewrite !get_schedule. auto.
+      + (* the _check of another condition: c is untouched, e may get defused *)
+        assert (E0 : Nat.eqb c c0 = false) by (apply Nat.eqb_neq; congruence). rewrite E0 in A, B. cbn [plus] in A, B.
+        assert (Hc1 : get_event c (cond_check c0 e s) = Some cev).
+        { destruct (cond_check_frame c0 e s c) as [H|(H & _)]; [congruence|rewrite H; exact Hc|congruence]. }
+        assert (He1 : exists eev1, get_event e (cond_check c0 e s) = Some eev1 /\ kind eev1 = kind eev /\ out eev1 = out eev /\
+                         (defused eev = true -> defused eev1 = true)).
+        { destruct (Nat.eq_dec e c0) as [<-|Ne].
+          - (* e is not its own operand: _check e e does nothing to e beyond the counter; use the general shape *)
+            destruct (cond_check_cases e e s) as [->|(cev' & oev' & a' & ops' & n' & H1 & H2 & H3 & H4)]; [exists eev; auto|].
+            rewrite He in H1. injection H1 as <-. congruence.
+          - destruct (cond_check_frame c0 e s e Ne) as [H|(_ & oev & Ho & _ & H)].
+            + exists eev. rewrite H. auto.
+            + rewrite He in Ho. injection Ho as <-. exists (ev_set_defused eev). rewrite H. cbn. auto. }
+        destruct He1 as (eev1 & He1 & Ke1 & Oe1 & De1).
+        apply (TR_transfer l s (cond_check c0 e s) cev n eev cev eev1 Hc Kc He Oe Hc1 Kc eq_refl He1 Ke1 De1); [| |split; [exact A|exact B]].
+        * left. rewrite Oe1. split; [reflexivity|auto].
+        * congruence.
+  Qed.
+End OneCondition.
+
+(* ------------------------------------------------------------------------------------------------ *)
+(* the tree of operands *)
+
+Lemma desc_le X s d c : cinv X s -> desc s d c -> (c <= d)%nat.
+Proof.
+  intros CI H. induction H as [|d' dev all ops n o H IH Hd Kd Io]; [lia|].
+  pose proof (ci_older _ _ CI _ _ _ _ _ Hd Kd _ Io). lia.
+Qed.
+
+Lemma desc_back X s s' d c :
+  grows s s' -> cinv X s' -> (d < length (events s))%nat -> desc s' d c -> desc s d c.
+Proof.
+  intros [G _] CI Ld H. induction H as [|d' dev' all ops n o H IH Hd Kd Io]; [constructor|].
+  pose proof (desc_le _ _ _ _ CI H) as Le.
+  assert (Ld' : (d' < length (events s))%nat) by lia.
+  destruct (get_event d' s) as [dev|] eqn:E; [|apply nth_error_None in E; lia].
+  destruct (G _ _ E) as (dev2 & E2 & KL & _). rewrite Hd in E2. injection E2 as <-.
+  destruct (kind_le_cond _ _ _ _ _ KL Kd) as (n0 & K0 & _).
+  eapply desc_step; [exact IH|exact E|exact K0|exact Io].
+Qed.
+
+(* ------------------------------------------------------------------------------------------------ *)
+(* C05, main theorem: one completed step, seen from a pending condition that no enclosing condition has detached *)
+
+Theorem cond_step codes X fuel s s' e c cev all ops n :
+  creach codes X s -> clean_step fuel codes s s' e ->
+  get_event c s = Some cev -> kind cev = KCond all ops n -> out cev = None -> ~ detached s c ->
+  exists X', etrace codes X' s s' /\ creach codes (X ++ X') s' /\
+    (forall o, is_proc s' o = true <-> (o = e \/ is_proc s o = true)) /\
+    (~ In c (X ++ X') ->
+     exists cev' n' eev', get_event c s' = Some cev' /\ kind cev' = KCond all ops n' /\ get_event e s' = Some eev' /\
+       (n' <= procpos s' ops)%nat /\
+       (~ In e ops -> out cev' = None) /\
+       (In e ops ->
+          (out cev' = None /\ all = true /\ n' = procpos s' ops /\ cond_evaluate all (length ops) n' = false /\
+             (is_failed eev' = false \/ kproc eev')) \/
+          (exists x, out cev' = Some (Fail x) /\ defused eev' = true /\ (out eev' = Some (Fail x) \/ kproc eev')) \/
+          (out cev' = Some (Ok VNone) /\ cond_evaluate all (length ops) n' = true /\ (is_failed eev' = false \/ kproc eev')))).
+Proof.
+  intros CR CS Hc Kc Oc ND.
+  pose proof (creach_reach _ _ _ CR) as R. pose proof (reach_cinv _ _ _ R) as CI. pose proof (reach_procs_wf _ _ _ R) as PW.
+  pose proof (creach_bnd _ _ _ CR) as B.
+  pose proof CS as (m & rest & ev & l & Pm & -> & He & Cl & L).
+  set (e := e_ev m) in *. set (sp := popped m rest s).
+  destruct (pop_min_spec _ _ _ Pm) as (Im & _ & _).
+  destruct (ci_agenda _ _ CI _ Im) as (ev0 & He0 & Oe0). fold e in He0. rewrite He in He0. injection He0 as <-.
+  assert (Nce : c <> e) by (intros ->; rewrite Hc in He; injection He as <-; congruence).
+  destruct (binv_popped X 0%nat m rest s ev l CI B Pm He Cl) as (Bp & Wp).
+  assert (W : winv X l e sp).
+  { split; [apply cinv_popped; assumption|]. split; [eapply prim_procs_wf; [apply p_pop, Pm|exact PW]|].
+    split; [eapply popped_processed, He|exact Wp]. }
+  destruct (B _ _ _ _ _ Hc Kc) as (_ & B2). destruct (B2 Oc) as [D|(A & Q & F)]; [contradiction|].
+  assert (Cnt : cbcount (CbCheck c) l = occ e ops) by (eapply A; eassumption).
+  assert (Gp : forall x, get_event x sp = if Nat.eqb x e then Some (ev_set_cbs None ev) else get_event x s).
+  { intros x. unfold sp, popped. fold e. rewrite get_upd. change (get_event x (pop_state m rest s)) with (get_event x s).
+    destruct (Nat.eqb x e) eqn:E; [|reflexivity]. apply Nat.eqb_eq in E. subst x. rewrite He. reflexivity. }
+  assert (Q0 : QQ e c all ops sp X l sp).
+  { split; [intros o; reflexivity|]. intros _. exists cev, n, (ev_set_cbs None ev).
+    split; [rewrite Gp; apply Nat.eqb_neq in Nce; rewrite Nce; exact Hc|]. split; [exact Kc|].
+    split; [rewrite Gp, Nat.eqb_refl; reflexivity|]. split; [exact Oe0|]. split.
+    - intros Ni. split; [exact Oc|]. rewrite Cnt. apply occ_notin, Ni.
+    - intros Ii. left. split; [exact Oc|]. assert (0 < occ e ops)%nat by (apply occ_in, Ii). split; [intros _; lia|intros _; left; lia]. }
+  destruct (loop_all codes fuel e (QQ e c all ops sp) (QQ_i e c all ops sp) (QQ_check e c all ops sp Nce) (QQ_build e c all ops sp Nce)
+              (QQ_drop e c all ops sp) l sp s' L X W Q0) as (X' & T & (NP & HT)).
+  assert (T' : etrace codes X' s s').
+  { change X' with ([] ++ X'). eapply et_app; [|exact T]. rewrite <- (app_nil_r []). econstructor; [apply es_pop, Pm|constructor]. }
+  assert (CR' : creach codes (X ++ X') s') by (eapply cr_step; eassumption).
+  pose proof (creach_reach _ _ _ CR') as R'. pose proof (reach_cinv _ _ _ R') as CI'. pose proof (creach_bnd _ _ _ CR') as B'.
+  assert (GR : grows s s') by (eapply steps_grows; exists X'; eapply etrace_ptrace, T').
+  assert (IPs : forall o, is_proc s' o = true <-> (o = e \/ is_proc s o = true)).
+  { intros o. rewrite NP. unfold is_proc. rewrite Gp. destruct (Nat.eqb o e) eqn:E.
+    - apply Nat.eqb_eq in E. subst o. cbn. split; auto.
+    - apply Nat.eqb_neq in E. split; [auto|intros [H|H]; [contradiction|exact H]]. }
+  exists X'. split; [exact T'|]. split; [exact CR'|]. split; [exact IPs|].
+  intros NX. destruct (HT NX) as (cev' & n' & eev' & Hc' & Kc' & He' & Oe' & A' & Bx).
+  destruct (B' _ _ _ _ _ Hc' Kc') as (B1' & B2'). rewrite cbcount_nil, Nat.add_0_r in B1', B2'.
+  exists cev', n', eev'. split; [exact Hc'|]. split; [exact Kc'|]. split; [exact He'|]. split; [exact B1'|].
+  split; [intros Ni; apply A', Ni|]. intros Ii.
+  destruct (Bx Ii) as [(O & L1 & L2)|[H|H]]; [left|right; left; exact H|right; right; exact H].
+  assert (Al : all = true) by (destruct all; [reflexivity|]; specialize (L1 eq_refl); rewrite cbcount_nil in L1; lia).
+  split; [exact O|]. split; [exact Al|].
+  assert (NDs : ~ detached s' c).
+  { intros (d & Dd & Nd & Pd). apply IPs in Pd. destruct Pd as [->|Pd].
+    - pose proof (desc_le _ _ _ _ CI' Dd) as Le. pose proof (ci_older _ _ CI _ _ _ _ _ Hc Kc _ Ii). lia.
+    - apply ND. exists d. split; [|split; [exact Nd|exact Pd]].
+      eapply desc_back; [exact GR|exact CI'| |exact Dd].
+      unfold is_proc in Pd. destruct (get_event d s) eqn:E; [eapply get_lt, E|discriminate]. }
+  destruct (B2' O) as [D|(_ & Q' & _)]; [contradiction|]. split; [exact Q'|].
+  split; [exact (ci_pending _ _ CI' _ _ _ _ _ Hc' Kc' O)|].
+  destruct (is_failed eev') eqn:Fe; [|left; reflexivity]. destruct (L2 eq_refl) as [H|H]; [rewrite cbcount_nil in H; lia|right; exact H].
+Qed.
